@@ -9,6 +9,7 @@ replaced form, optional loop contracts, one build configuration.
 import hashlib
 import json
 import os
+import threading
 import re
 import shlex
 import shutil
@@ -77,6 +78,7 @@ class Group:
         self.timeout = timeout
         self.must_fail = list(must_fail)        # obligations that MUST be refuted (substring of description)
         self.expect_classes = list(expect_classes)
+        self.mem_gb = 2       # expected peak solver memory (GB); run_groups keeps the sum under MEM_BUDGET_GB
         self.lift = lift      # (asm path relative to /repo, [--fn=... signatures]): lifted to C into the build dir on every run
         self.replay = replay
         self.tiers = tiers
@@ -102,6 +104,7 @@ class Result:
         self.classes = {}
         self.wall = 0.0
         self.solver_s = 0.0
+        self.mem_gb = 0.0
         self.cmds = []
         self.samples = []
         self.log = ""
@@ -248,9 +251,14 @@ def run_group(g, reach=False, keep=False):
             cb += ["--nondet-static"]
         cb += g.extra_cbmc
         cb += [cur]
-        rc, out, err, dt = _run(cb, d, g.timeout, logf)
+        rss = os.path.join(d, "rss.txt")
+        rc, out, err, dt = _run(["/usr/bin/time", "-f", "%M", "-o", rss] + cb, d, g.timeout, logf)
         r.cmds.append(" ".join(cb))
         r.solver_s = dt
+        try:
+            r.mem_gb = round(int(open(rss).read().split()[-1]) / 1048576.0, 2)       # peak resident set of the solver process
+        except Exception:
+            r.mem_gb = 0.0
         if keep or True:
             with open(os.path.join(d, "result.json"), "w") as f:
                 f.write(out)
@@ -375,13 +383,68 @@ def trace_inputs(trace, maxn=400):
     return [(k, vals[k]) for k in order][:maxn]
 
 
+MEM_BUDGET_GB = int(os.environ.get("VERIF_MEM_GB", "0") or 0) or 44     # total solver memory allowed to run concurrently
+_mem_cv = threading.Condition()
+_mem_used = [0]
+
+
+def mem_key(g):
+    return "%s|%s|%s" % (os.path.basename(g.harness), g.enforce or "", g.cfg)
+
+
+try:
+    MEM_PROFILE = json.load(open(os.path.join(VERIF, "lib", "mem_profile.json")))
+except Exception:
+    MEM_PROFILE = {}
+
+
+def mem_estimate(g):
+    """expected peak solver memory of a group in GB: the largest peak recorded for its (harness, enforced function,
+    configuration) in lib/mem_profile.json (built from earlier evidence by tools/mem_profile.py), else a default"""
+    est = MEM_PROFILE.get(mem_key(g))
+    if est is None:
+        est = {"h_isap.c": 5, "h_asconsum.c": 11}.get(os.path.basename(g.harness), 2)
+    return max(getattr(g, "mem_gb", 0) or 0, est)
+
+
+def _mem_available_gb():
+    try:
+        for line in open("/proc/meminfo"):
+            if line.startswith("MemAvailable:"):
+                return int(line.split()[1]) / 1048576.0
+    except Exception:
+        pass
+    return 1e9
+
+
+def _run_group_mem(g, reach):
+    """run_group under a memory budget: a group's expected peak is reserved from MEM_BUDGET_GB before it starts (the kernel's
+    OOM killer otherwise shoots solver processes: seen with 16 x 10 GB), and the start is delayed while the machine has less
+    than that plus a reserve actually available."""
+    need = min(max(1, int(mem_estimate(g) + 1.5)), MEM_BUDGET_GB)
+    with _mem_cv:
+        while _mem_used[0] + need > MEM_BUDGET_GB:
+            _mem_cv.wait()
+        _mem_used[0] += need
+    try:
+        waited = 0
+        while _mem_available_gb() < need + 6 and waited < 1800:
+            time.sleep(3)
+            waited += 3
+        return run_group(g, reach)
+    finally:
+        with _mem_cv:
+            _mem_used[0] -= need
+            _mem_cv.notify_all()
+
+
 def run_groups(groups, jobs=None, reach_names=()):
     jobs = jobs or min(16, os.cpu_count() or 4)
     results = []
     work = [(g, False) for g in groups] + [(g, True) for g in groups if g.name in reach_names]
     # longest first
     with ThreadPoolExecutor(max_workers=jobs) as ex:
-        futs = {ex.submit(run_group, g, reach): (g, reach) for g, reach in work}
+        futs = {ex.submit(_run_group_mem, g, reach): (g, reach) for g, reach in work}
         for f in as_completed(futs):
             g, reach = futs[f]
             try:
